@@ -737,11 +737,15 @@ class TestCase(unittest.TestCase):
         """
         try:
             fixture.setUp()
-        except MultipleExceptions as e:
-            if fixtures is not None and e.args[-1][0] is fixtures.fixture.SetupError:
+        except BaseException as e:
+            if (
+                isinstance(e, MultipleExceptions)
+                and fixtures is not None
+                and e.args
+                and e.args[-1][0] is fixtures.fixture.SetupError
+            ):
                 gather_details(e.args[-1][1].args[0], self.getDetails())
-            raise
-        except BaseException:
+                raise
             exc_info = sys.exc_info()
             try:
                 # fixture._details is not available if using the newer
